@@ -338,7 +338,7 @@ pub fn subchecks(tier: Tier) -> Vec<SubCheck> {
     vec![generated(
         "histories_vs_one_shot",
         "(byte program, call history): update / update_by_iter (exact and inexact size_hint) / update_by_byte / += slice / += array of 1,2,7,8,64 / += byte / clone / mid-stream finalize, chunk sizes 0, 1..8, log-uniform, and cuts placed -7..+7 around piece boundaries and elimination points; final finalize*, input_size, hash_buf, hash_stream with generated read sizes equal the one-shot result (and the reference model); every mid-stream finalize equals the one-shot hash of the prefix; clone sources stay untouched; non-trivial = >= 2 update forms and a cut inside a trigger window and >= 1 piece at the selected level; distinct by (program, history)",
-        tier.pick(40_000, 500_000),
+        tier.pick(120_000, 1_200_000),
         move || strategy(wt_seed(), tier),
         eval,
     )]
